@@ -632,3 +632,48 @@ func c12UsedMarks(p *load.Prog, r *oblig.Run) {
 		o.OK(fmt.Sprintf("%d map(s) made by the pairing; each one that is written is also consulted", n))
 	}
 }
+
+// c19WriterError (R19.q): the error a FileWriter reports is kept. In Publisher.Publish and its function literals the
+// result of every WriteFile call is stored, returned or handed on - a result that is only compared with nil (and then
+// dropped, e.g. by a shadowing `if err := ...; err != nil { err = err }`) lets Publish answer nil after a failed write.
+func c19WriterError(p *load.Prog, r *oblig.Run) {
+	r.Rule("R19.q", "the error returned by FileWriter.WriteFile in Publish is stored, returned or handed on, not only tested", 1)
+	pub := p.Method(load.PkgHTML, "Publisher", "Publish")
+	if pub == nil || len(pub.Blocks) == 0 {
+		r.Add("R19.q", "anchor", "-", "anchor").Unknown("Publisher.Publish not found")
+		return
+	}
+	n := 0
+	for _, f := range append([]*ssa.Function{pub}, pub.AnonFuncs...) {
+		for _, b := range f.Blocks {
+			for _, ins := range b.Instrs {
+				c, ok := ins.(*ssa.Call)
+				if !ok || !c.Call.IsInvoke() || c.Call.Method.Name() != "WriteFile" || c.Referrers() == nil {
+					continue
+				}
+				n++
+				o := r.Add("R19.q", "error of WriteFile in "+load.FuncName(f), p.Pos(c.Pos()), "uses of the writer's error")
+				kept := false
+				for _, ref := range *c.Referrers() {
+					switch x := ref.(type) {
+					case *ssa.BinOp, *ssa.DebugRef, *ssa.If:
+					case *ssa.Store:
+						if x.Val == ssa.Value(c) {
+							kept = true
+						}
+					default:
+						kept = true // returned, passed to a call, converted, merged in a phi ...
+					}
+				}
+				if kept {
+					o.OK("the error is stored or handed on")
+				} else {
+					o.Fail("the error of WriteFile is only compared with nil and then dropped: Publish returns nil although a file could not be written")
+				}
+			}
+		}
+	}
+	if n == 0 {
+		r.Add("R19.q", "anchor calls", p.Pos(pub.Pos()), "anchor").OK("Publish does not call WriteFile itself (written through a helper; not judged)")
+	}
+}
